@@ -1,8 +1,11 @@
 /* Runtime support for generated PTG (JDF) test programs: data collection, event log, driver main.
  * Linked with every generated program (gen/ptg_gen.py); runs the REAL runtime and the REAL generated code.
  * Transcript format: docs/notes/PTG.md. */
+#define _GNU_SOURCE
 #include "ptg_rt.h"
 #include "parsec/parsec_internal.h"
+#include "parsec/scheduling.h"
+#include <dlfcn.h>
 #include "parsec/class/parsec_hash_table.h"
 #include "parsec/utils/debug.h"
 #include <stdarg.h>
@@ -84,7 +87,7 @@ void ptg_rt_unset_adt(parsec_arena_datatype_t *adt)
 
 /* ------------------------------------------------------------------ event log */
 typedef struct {
-    int kind;                 /* 'B' or 'E' */
+    int kind;                 /* 'B' (begin), 'E' (end, DONE) or 'A' (end, the body answered AGAIN) */
     int th, cls, nloc, nfl;
     int loc[PTG_MAXP];
     int64_t val[PTG_MAXF];    /* per data flow: value seen (B) / written (E); INT64_MIN = none */
@@ -103,8 +106,52 @@ typedef struct { int nfl; int mode[PTG_MAXF]; int32_t *ptr[PTG_MAXF]; int64_t in
 static ptg_scratch_t ptg_scr[PTG_MAXTH];
 
 /* body behaviours (PTG_BODY): "log" (default), "spin" (busy-wait a pseudo-random few microseconds between begin and end
- * so that bodies overlap).  New behaviours are added here: see docs/notes/PTG.md */
+ * so that bodies overlap).  PTG_AGAIN="seed,percent,maxk": an instance answers PARSEC_HOOK_RETURN_AGAIN k times before it
+ * does its work, k = ptg_again_count(seed, class, locals) (same function in lib/pvptg.py): with probability percent/100 a
+ * value in 1..maxk, else 0.  New behaviours are added here: see docs/notes/PTG.md */
 static int ptg_body_spin;
+static int ptg_again_on, ptg_again_pct, ptg_again_maxk;
+static uint64_t ptg_again_seed;
+
+uint64_t ptg_again_hash(uint64_t seed, int cls, int nloc, const int *loc)
+{
+    uint64_t z = seed * 0x9E3779B97F4A7C15ULL + (uint64_t)(cls + 1) * 0x632BE59BD9B4E019ULL;
+    for (int i = 0; i < nloc; i++) {
+        z = (z ^ (uint64_t)(uint32_t)loc[i]) * 0xD1B54A32D192ED03ULL;
+        z ^= z >> 29;
+    }
+    z = (z ^ (z >> 30)) * 0xBF58476D1CE4E5B9ULL;
+    z = (z ^ (z >> 27)) * 0x94D049BB133111EBULL;
+    return z ^ (z >> 31);
+}
+static int ptg_again_count(int cls, int nloc, const int *loc)
+{
+    if (!ptg_again_on) return 0;
+    uint64_t z = ptg_again_hash(ptg_again_seed, cls, nloc, loc);
+    if ((int)((z >> 16) % 100) >= ptg_again_pct) return 0;
+    return 1 + (int)((z >> 40) % (uint64_t)ptg_again_maxk);
+}
+
+/* how many times the body of an instance has been invoked so far (an instance never runs concurrently with itself) */
+typedef struct { int cls, nloc, loc[PTG_MAXP], count; } ptg_inv_t;
+#define PTG_MAXINV 8192
+static ptg_inv_t ptg_inv[PTG_MAXINV];
+static int ptg_ninv;
+static pthread_mutex_t ptg_inv_lock = PTHREAD_MUTEX_INITIALIZER;
+static int ptg_invocations(int cls, int nloc, const int *loc)    /* returns the count BEFORE this invocation and increments it */
+{
+    int r = 0, i;
+    pthread_mutex_lock(&ptg_inv_lock);
+    for (i = 0; i < ptg_ninv; i++)
+        if (ptg_inv[i].cls == cls && ptg_inv[i].nloc == nloc && !memcmp(ptg_inv[i].loc, loc, sizeof(int) * (size_t)nloc)) break;
+    if (i == ptg_ninv && ptg_ninv < PTG_MAXINV) {
+        ptg_inv[i].cls = cls; ptg_inv[i].nloc = nloc; memcpy(ptg_inv[i].loc, loc, sizeof(int) * (size_t)nloc); ptg_inv[i].count = 0;
+        ptg_ninv++;
+    }
+    if (i < PTG_MAXINV) r = ptg_inv[i].count++;
+    pthread_mutex_unlock(&ptg_inv_lock);
+    return r;
+}
 
 static ptg_ev_t *ptg_new_ev(int kind, int th, int cls, int nloc, va_list ap)
 {
@@ -122,6 +169,7 @@ static int64_t ptg_mix(int64_t h, int64_t x) { return (h * 31 + (x & 0xffffffffL
 void ptg_task_begin(int th, int cls, int nloc, ...)
 {
     ptg_scr[th % PTG_MAXTH].nfl = 0;
+    for (int f = 0; f < PTG_MAXF; f++) { ptg_scr[th % PTG_MAXTH].mode[f] = 0; ptg_scr[th % PTG_MAXTH].ptr[f] = NULL; ptg_scr[th % PTG_MAXTH].in[f] = PTG_NONE; }
     va_list ap; va_start(ap, nloc);
     /* the stamp is taken here: everything the body does comes after it */
     ptg_ev_t *e = ptg_new_ev('b', th, cls, nloc, ap);       /* 'b' = begin under construction: flows follow */
@@ -135,6 +183,7 @@ void ptg_flow(int th, int flow, int mode, void *ptr)
     ptg_scratch_t *s = &ptg_scr[th % PTG_MAXTH];
     if (flow >= PTG_MAXF) return;
     s->mode[flow] = mode; s->ptr[flow] = (int32_t *)ptr;
+    if (ptr != NULL && (mode & PTG_NEW)) ((int32_t *)ptr)[0] = 0;      /* a copy allocated for this task (NEW): the body initialises it */
     s->in[flow] = (ptr != NULL && (mode & PTG_READ)) ? ((int32_t *)ptr)[0] : PTG_NONE;
     if (flow + 1 > s->nfl) s->nfl = flow + 1;
 }
@@ -152,7 +201,22 @@ int ptg_task_end(int th, int cls, int nloc, ...)
         volatile int spin = (int)((z >> 40) % 2000);
         while (spin-- > 0) ;
     }
-    /* outputs: every written flow gets H(class, flow, locals, all input values) */
+    /* C16: answer AGAIN the first k invocations (nothing is written, the inputs seen are logged with the begin event) */
+    {
+        int nl = nloc < PTG_MAXP ? nloc : PTG_MAXP;
+        int before = ptg_invocations(cls, nl, loc);
+        if (before < ptg_again_count(cls, nl, loc)) {
+            ptg_ev_t *b = (ptg_ev_t *)s->bev;
+            ptg_ev_t *e = ptg_new_ev('A', th, cls, nloc, ap);
+            va_end(ap);
+            e->nfl = 0;
+            b->nfl = s->nfl;
+            for (int f = 0; f < s->nfl; f++) b->val[f] = s->in[f];
+            b->kind = 'B';
+            return PARSEC_HOOK_RETURN_AGAIN;
+        }
+    }
+    /* outputs: every written flow gets H(class, flow, locals, the values seen in the data flows, in flow order) */
     int64_t out[PTG_MAXF];
     for (int f = 0; f < s->nfl; f++) {
         out[f] = PTG_NONE;
@@ -160,7 +224,7 @@ int ptg_task_end(int th, int cls, int nloc, ...)
             int64_t h = 17;
             h = ptg_mix(h, cls); h = ptg_mix(h, f);
             for (int i = 0; i < nloc && i < PTG_MAXP; i++) h = ptg_mix(h, loc[i]);
-            for (int g = 0; g < s->nfl; g++) h = ptg_mix(h, s->in[g] == PTG_NONE ? 0 : s->in[g]);
+            for (int g = 0; g < s->nfl; g++) if (s->mode[g]) h = ptg_mix(h, s->in[g] == PTG_NONE ? 0 : s->in[g]);
             out[f] = h;
         }
     }
@@ -180,6 +244,67 @@ int ptg_task_end(int th, int cls, int nloc, ...)
     return PARSEC_HOOK_RETURN_DONE;
 }
 
+/* ------------------------------------------------------------------ startup batches (C16)
+ * The generated startup function calls parsec_dependencies_mark_task_as_startup for every task it creates and hands the
+ * ring to __parsec_schedule_vp.  Both are exported by libparsec; the definitions below take precedence for the calls made by
+ * the generated code (which is part of this executable), record what passes, and forward to the real functions. */
+typedef struct { int cls, n, cap; int (*loc)[PTG_MAXP]; int nloc; } ptg_batch_t;
+static __thread int ptg_su_cls, ptg_su_n, ptg_su_nloc;
+static __thread int ptg_su_loc[2048][PTG_MAXP];
+static ptg_batch_t *ptg_batches; static int ptg_nbatches, ptg_capbatches;
+static pthread_mutex_t ptg_batch_lock = PTHREAD_MUTEX_INITIALIZER;
+
+void parsec_dependencies_mark_task_as_startup(parsec_task_t *task, parsec_execution_stream_t *es)
+{
+    static void (*real)(parsec_task_t *, parsec_execution_stream_t *);
+    if (!real) real = (void (*)(parsec_task_t *, parsec_execution_stream_t *))dlsym(RTLD_NEXT, "parsec_dependencies_mark_task_as_startup");
+    if (ptg_su_n < 2048) {
+        int nl = task->task_class->nb_locals < PTG_MAXP ? task->task_class->nb_locals : PTG_MAXP;
+        ptg_su_cls = task->task_class->task_class_id; ptg_su_nloc = nl;
+        for (int i = 0; i < nl; i++) ptg_su_loc[ptg_su_n][i] = task->locals[i].value;
+        ptg_su_n++;
+    }
+    real(task, es);
+}
+
+int __parsec_schedule_vp(parsec_execution_stream_t *es, parsec_task_t **task_rings, int32_t distance)
+{
+    static int (*real)(parsec_execution_stream_t *, parsec_task_t **, int32_t);
+    if (!real) real = (int (*)(parsec_execution_stream_t *, parsec_task_t **, int32_t))dlsym(RTLD_NEXT, "__parsec_schedule_vp");
+    if (ptg_su_n > 0) {
+        pthread_mutex_lock(&ptg_batch_lock);
+        if (ptg_nbatches == ptg_capbatches) {
+            ptg_capbatches = ptg_capbatches ? 2 * ptg_capbatches : 256;
+            ptg_batches = realloc(ptg_batches, sizeof(ptg_batch_t) * (size_t)ptg_capbatches);
+        }
+        ptg_batch_t *b = &ptg_batches[ptg_nbatches++];
+        b->cls = ptg_su_cls; b->n = ptg_su_n; b->nloc = ptg_su_nloc;
+        b->loc = malloc(sizeof(int[PTG_MAXP]) * (size_t)ptg_su_n);
+        memcpy(b->loc, ptg_su_loc, sizeof(int[PTG_MAXP]) * (size_t)ptg_su_n);
+        pthread_mutex_unlock(&ptg_batch_lock);
+        ptg_su_n = 0;
+    }
+    return real(es, task_rings, distance);
+}
+
+static void ptg_dump_batches(void)
+{
+    /* `#batch <cls> <k> : l0 l1 .. ; l0 l1 ..` = the k-th ring scheduled by the startup function of class cls, creation order */
+    int k[64] = {0};
+    /* a runaway startup function (hang path) may still be appending: dump under the lock, and not more than 4000 rings */
+    pthread_mutex_lock(&ptg_batch_lock);
+    for (int i = 0; i < ptg_nbatches && i < 4000; i++) {
+        ptg_batch_t *b = &ptg_batches[i];
+        fprintf(ptg_out, "#batch %d %d :", b->cls, (b->cls >= 0 && b->cls < 64) ? k[b->cls]++ : -1);
+        for (int j = 0; j < b->n; j++) {
+            for (int l = 0; l < b->nloc; l++) fprintf(ptg_out, " %d", b->loc[j][l]);
+            if (j + 1 < b->n) fprintf(ptg_out, " ;");
+        }
+        fprintf(ptg_out, "\n");
+    }
+    pthread_mutex_unlock(&ptg_batch_lock);
+}
+
 static void ptg_dump_events(int64_t cap)
 {
     int64_t n = ptg_stamp;
@@ -189,7 +314,7 @@ static void ptg_dump_events(int64_t cap)
         ptg_ev_t *e = &ptg_log[i];
         int k = __atomic_load_n(&e->kind, __ATOMIC_ACQUIRE);
         if (k == 0) continue;
-        fprintf(ptg_out, "%c %d", k == 'E' ? 'E' : 'B', e->cls);
+        fprintf(ptg_out, "%c %d", k == 'E' ? 'E' : k == 'A' ? 'A' : 'B', e->cls);
         for (int j = 0; j < e->nloc && j < PTG_MAXP; j++) fprintf(ptg_out, " %d", e->loc[j]);
         fprintf(ptg_out, " / %d", e->th);
         for (int f = 0; f < e->nfl; f++) {
@@ -204,6 +329,7 @@ static int ptg_timeout_ms = 20000, ptg_init_timeout_ms = 120000;
 static int64_t ptg_max_events = 100000;   /* PTG_MAX_EVENTS: more logged events than this = runaway program, reported as a hang */
 static parsec_taskpool_t *ptg_tp; static ptg_initial_fn ptg_ini; static const char *ptg_keyfile;
 static void ptg_probe_keys(parsec_taskpool_t *tp, const char *file);
+static void ptg_dump_batches(void);
 static volatile int ptg_done;
 static ptg_initial_fn ptg_inited;
 static void *ptg_watchdog(void *arg)
@@ -231,6 +357,7 @@ static void *ptg_watchdog(void *arg)
         } else fprintf(ptg_out, "#not-initialised\n");
         ptg_dump_events(4000);
         fprintf(ptg_out, "end => hang %lld %lld\n", (long long)b, (long long)e);
+        ptg_dump_batches();
         fflush(ptg_out);
         _exit(3);
     }
@@ -264,6 +391,9 @@ static void ptg_probe_keys(parsec_taskpool_t *tp, const char *file)
     fclose(f);
 }
 
+#include <time.h>
+static double ptg_now(void) { struct timespec ts; clock_gettime(CLOCK_MONOTONIC, &ts); return ts.tv_sec + 1e-9 * ts.tv_nsec; }
+
 int ptg_rt_main(int argc, char **argv, int nglobals, ptg_make_fn mk, ptg_initial_fn ini, ptg_initial_fn inited, ptg_unmake_fn unmk)
 {
     int threads = 1, nt = 16, g[16] = {0}, rc;
@@ -281,16 +411,24 @@ int ptg_rt_main(int argc, char **argv, int nglobals, ptg_make_fn mk, ptg_initial
         } else { fprintf(stderr, "usage: %s [-t threads] [-g g0,g1,..] [-n tiles] [-k instance-file] [-o out] [-- parsec args]\n", argv[0]); return 2; }
     }
     (void)nglobals;
+    double t_start = ptg_now(), t_mpi, t_init, t_run;
     if (getenv("PTG_TIMEOUT_MS")) ptg_timeout_ms = atoi(getenv("PTG_TIMEOUT_MS"));
     if (getenv("PTG_MAX_EVENTS")) ptg_max_events = atoll(getenv("PTG_MAX_EVENTS"));
     if (getenv("PTG_INIT_TIMEOUT_MS")) ptg_init_timeout_ms = atoi(getenv("PTG_INIT_TIMEOUT_MS"));
     if (getenv("PTG_BODY") && !strcmp(getenv("PTG_BODY"), "spin")) ptg_body_spin = 1;
+    if (getenv("PTG_AGAIN")) {
+        unsigned long long sd = 1; int pct = 30, mk = 3;
+        if (sscanf(getenv("PTG_AGAIN"), "%llu,%d,%d", &sd, &pct, &mk) >= 1 && mk >= 1) {
+            ptg_again_on = 1; ptg_again_seed = sd; ptg_again_pct = pct; ptg_again_maxk = mk;
+        }
+    }
 #if defined(PARSEC_HAVE_MPI)
     { int provided; MPI_Init_thread(&argc, &argv, MPI_THREAD_SERIALIZED, &provided);
       MPI_Comm_size(MPI_COMM_WORLD, &ptg_world); MPI_Comm_rank(MPI_COMM_WORLD, &ptg_rank); }
 #else
     ptg_world = 1; ptg_rank = 0;
 #endif
+    t_mpi = ptg_now();
     ptg_out = stdout;
     if (outfile) {
         char name[1024];
@@ -303,6 +441,7 @@ int ptg_rt_main(int argc, char **argv, int nglobals, ptg_make_fn mk, ptg_initial
 
     parsec_context_t *ctx = parsec_init(threads, &pargc, &pargv);
     if (!ctx) { fprintf(stderr, "parsec_init failed\n"); return 2; }
+    t_init = ptg_now();
     ptg_dc_t *dc = ptg_dc_new(ptg_rank, ptg_world, nt);
     parsec_taskpool_t *tp = mk(&dc->super, g);
     fprintf(ptg_out, "#ptg rank %d world %d threads %d sched %s startup_iter %zu startup_chunk %zu\n", ptg_rank, ptg_world, threads,
@@ -314,17 +453,22 @@ int ptg_rt_main(int argc, char **argv, int nglobals, ptg_make_fn mk, ptg_initial
     rc = parsec_context_start(ctx);              PARSEC_CHECK_ERROR(rc, "parsec_context_start");
     rc = parsec_context_wait(ctx);               PARSEC_CHECK_ERROR(rc, "parsec_context_wait");
     ptg_done = 1;
+    t_run = ptg_now();
     pthread_join(wd, NULL);
+    fprintf(ptg_out, "#timing mpi_init %.2f parsec_init %.2f run %.2f\n", t_mpi - t_start, t_init - t_mpi, t_run - t_init);
 
     fprintf(ptg_out, "count %d %d => %d\n", ptg_rank, ptg_world, ini(tp));
     if (keyfile) ptg_probe_keys(tp, keyfile);
     ptg_dump_events(0);
     fprintf(ptg_out, "end => complete\n");
+    ptg_dump_batches();
     /* final contents of the collection (C02) */
-    fprintf(ptg_out, "#final");
-    for (int t = 0; t < dc->nt; t++) fprintf(ptg_out, " %d", dc->ptr[t * PTG_TILE]);
+    fprintf(ptg_out, "#final");        /* the tiles whose content is not the initial one, `tile:value` */
+    for (int t = 0; t < dc->nt; t++) if (dc->ptr[t * PTG_TILE] != 1000 + t) fprintf(ptg_out, " %d:%d", t, dc->ptr[t * PTG_TILE]);
     fprintf(ptg_out, "\n");
     fflush(ptg_out);
+    /* PTG_FAST_EXIT: the transcript is complete; skip the teardown of the runtime and of MPI (seconds on a loaded machine) */
+    if (getenv("PTG_FAST_EXIT")) { if (ptg_out != stdout) fclose(ptg_out); _exit(0); }
 
     unmk(tp);
     parsec_taskpool_free(tp);
